@@ -1,6 +1,7 @@
 package props
 
 import (
+	"encoding/base64"
 	"fmt"
 
 	"github.com/btcsuite/btcutil/base58"
@@ -292,7 +293,9 @@ func (g *G) proof(against *didtypes.DIDDocument, authKeys []int, content []byte,
 		did = against.Id
 	}
 	sign := func(ki int, c []byte, s uint64) []byte {
-		return w.DID.SignProof(w.Keys, ki, world.DataWithSeqBytes(c, s))
+		payload := world.DataWithSeqBytes(c, s)
+		g.proofs = append(g.proofs, world.ProofReg{Key: ki, Payload: base64.StdEncoding.EncodeToString(payload)})
+		return w.DID.SignProof(w.Keys, ki, payload)
 	}
 	right := func() (string, []byte, bool) {
 		if len(auth) == 0 {
